@@ -417,6 +417,8 @@ func cmdServe(args []string) {
 	big := fs.Bool("big", false, "larger structured universe")
 	prop := fs.String("prop", "C03", "property whose blocks are generated (C03 | C10 | C11 | C16)")
 	out := fs.String("out", "", "summary JSON")
+	shard := fs.Int("shard", 0, "this shard's index")
+	nshards := fs.Int("nshards", 1, "number of shards the configurations are dealt to")
 	fs.Parse(args)
 	rng := newRand()
 	t := newTracer(*trace)
@@ -429,9 +431,12 @@ func cmdServe(args []string) {
 	if *prop == "C11" {
 		sems = append(sems, Sem{Pass: true, Status: 204, Pna: "none"}, Sem{Pass: true, Status: 204, Pna: "none", MaxAge: 1})
 	}
-	var served, rejected, panics, preflights int
+	var served, rejected, panics, preflights, processed int
 	var samples []any
 	for ci, s := range sems {
+		if ci%*nshards != *shard {
+			continue
+		}
 		cfg := s.spell(rng)
 		var m *cors.Middleware
 		if s.Pass {
@@ -456,6 +461,7 @@ func cmdServe(args []string) {
 				continue
 			}
 		}
+		processed++
 		t.emit(map[string]any{"ev": "Config", "id": ci, "sem": s.toJSONb(), "cfg": cfgJSON(cfg)})
 		var reqs []reqSpec
 		if *mode == "universe" || *mode == "both" {
@@ -505,7 +511,7 @@ func cmdServe(args []string) {
 			samples = append(samples, map[string]any{"config": cfgJSON(cfg), "requests": rq})
 		}
 	}
-	writeJSON(*out, map[string]any{"served": served, "configs": len(sems) - rejected, "rejected": rejected, "panics": panics,
+	writeJSON(*out, map[string]any{"served": served, "configs": processed, "rejected": rejected, "panics": panics,
 		"preflights": preflights, "events": t.n, "samples": samples})
 }
 
